@@ -200,7 +200,7 @@ class Lib:
 
 
 PB_WHAT = {'meson': 'default options', 'meson-release': 'buildtype=release, b_ndebug=true', 'meson-uchar': 'plain char unsigned, as on arm / ppc64le / s390x',
-           'meson-static': 'default_library=static, linked into a program that references only what it calls'}
+           'meson-static': 'default_library=static, linked into a program that references only what it calls', 'meson-c11': 'c_std=c11, a strict ISO language standard'}
 
 
 def independence(ck, prefix, config, jobs, orders=('given', 'reversed', 'last-argument-major', 'each-twice')):
